@@ -28,6 +28,21 @@ CHECKS = {
             "Trusted: reference model; 64 B/record as the reading of 'small constant'.", "9/C16"),
 }
 
+CHECKS.update({
+    "C06": ("exploration", "stateful property testing (proptest); history invariant over the directory listing, with file-of-origin tracked independently from the I/O trace",
+            "After every truncate / delete_queue / open of generated multi-queue histories the directory listing is compared with an independently computed bound (oldest file any retained record was appended into, file current at call begin); contiguity, ending at the writer's file and disk_used_bytes are checked too.",
+            "Trusted: the I/O trace's notion of 'current file'; premature deletion is left to C01.", "9/C06"),
+    "C14": ("exploration", "differential property testing (proptest): same concrete history under all 9 persist policies in lock-step",
+            "The same generated call sequence is executed under every policy; outcomes and full observable states are compared after every call and after a final restart against the Always(Flush) run (itself compared with the model).",
+            "Trusted: OnDelay exercised at 0, 1 us and 1 h; wall clock not controlled.", "9/C14"),
+    "C17": ("exploration", "stateful property testing (proptest) with generated foreign directory entries + metamorphic renumbering",
+            "Generated sets of near-miss names, directories and symlinks (each holding a valid WAL image for a phantom queue) are placed in the directory before opens; after histories with roll-over and GC they must be untouched and never read, all names the library touches must be wal-<20 digits>, and an order-preserving renumbering with gaps must recover the same state and continue at max+1.",
+            "Trusted: hook events for create/open/unlink names; WAL-shaped foreign names kept out of the writer's reach.", "9/C17"),
+    "C18": ("exploration", "metamorphic property testing (proptest): history vs. per-queue projection, no reference model",
+            "For every queue of a generated multi-queue history the projected history is re-executed in a fresh directory and the queue's outcomes and observable content are compared at every projected call; additionally a call addressed to one queue must not change what any other queue returns.",
+            "Trusted: nothing beyond the public API (the model is not used).", "9/C18"),
+})
+
 NOT_YET = {
 }
 
